@@ -232,12 +232,93 @@ class _UnoptimizedCallee(_SchemeCallee):
     optimised = False
 
 
+FMT_NUMBER = {"einsum": z3.Function("python_number_text", z3.RealSort(), z3.StringSort()),
+              "libtensor": z3.Function("cpp_number_text", z3.RealSort(), z3.StringSort())}
+
+
+class _NumberFormatter(_Opaque):
+    """number formatters: assumed callees (text of a non negative number in the syntax of the
+    backend: an uninterpreted function of the number - bounded stand-in generated_code.execute);
+    obligation at the call site: the magnitude of the prefactor of the term is what is formatted"""
+    backend = None
+
+    def pre(self, vc, a):
+        pref = vc.ghost["_pref"]
+        return [("the-magnitude-of-the-prefactor-of-the-term-is-formatted",
+                 term(a["prefactor"]) == z3.If(pref.t < 0, -pref.t, pref.t))]
+
+    def fresh_result(self, vc, a):
+        return Sym(FMT_NUMBER[self.backend](term(a["prefactor"])))
+
+
 @register
-class _FormatPrefactor(_Opaque):
+class _FormatPythonPrefactor(_NumberFormatter):
+    key = GC + "_format_python_prefactor"
+    backend = "einsum"
+    note = "text of a non negative number in Python syntax"
+
+
+@register
+class _FormatCppPrefactor(_NumberFormatter):
+    key = GC + "_format_cpp_prefactor"
+    backend = "libtensor"
+    note = "text of a non negative number in C++ syntax"
+
+
+C.STRUCT_ISINSTANCE["SymbolBaseV"] = lambda ip, v, cls: str(
+    getattr(cls, "dotted", getattr(cls, "key", ""))).endswith("Symbol")
+C.STRUCT_ISINSTANCE["TensorBaseV"] = lambda ip, v, cls: False
+
+
+@register
+class FormatPrefactor(Contract):
+    """format_prefactor: "<sign> <|prefactor| in the syntax of the backend>[ * <symbol> ...]" -
+    the sign is '-' exactly for a negative prefactor, the number formatter of the requested
+    backend sees the magnitude, every Symbol of the term follows with its multiplicity (its
+    exponent) in the order of the objects, tensors contribute nothing; any other backend is
+    refused with NotImplementedError."""
     key = GC + "format_prefactor"
-    note = "prefactor text of the term (bounded stand-in generated_code.execute)"
+    props = ["C17"]
+    note = "prefactor text of the term"
+    # objects of the term: S symbol, T tensor; exponent behind it
+    SHAPES = [(), (("S", 1),), (("T", 1),), (("S", 2),), (("T", 1), ("S", 1)), (("S", 1), ("T", 2), ("S", 3)),
+              (("S", 2), ("S", 1))]
+    BACKENDS = ["einsum", "libtensor", "numpy"]
+    split_first_choice = len(SHAPES)
+
+    def setup(self, vc):
+        shape = self.SHAPES[vc.choose(len(self.SHAPES), "shape")]
+        backend = self.BACKENDS[vc.choose(len(self.BACKENDS), "backend")]
+        pref = Sym(z3.Real("prefactor"))
+        vc.ghost["_pref"] = pref
+        objs = []
+        for n, (kind, expo) in enumerate(shape):
+            name = Sym(z3.String(f"name{n}"))
+            vc.assume(z3.Length(name.t) > 0)   # type invariant: sympy symbols / tensors have a non-empty name
+            # Obj.name (its body: the name of a SymbolicTensor, otherwise None) - a Symbol carries
+            # its name only on the sympy object
+            base = Struct("SymbolBaseV" if kind == "S" else "TensorBaseV", name=name)
+            objs.append(Struct("CodeObjV", base=base, name=None if kind == "S" else name, exponent=expo))
+        return {"term": Struct("PrefTermV", prefactor=pref, objects=tuple(objs)), "backend": backend}
+
+    def raises(self, vc, a):
+        return [("NotImplementedError", a["backend"] not in ("einsum", "libtensor"))]
+
+    def post(self, vc, a, result):
+        pref = a["term"].f["prefactor"]
+        number = FMT_NUMBER[a["backend"]](z3.If(pref.t < 0, -pref.t, pref.t))
+        sign = z3.If(pref.t < 0, z3.StringVal("-"), z3.StringVal("+"))
+        symbols = [o.f["base"].f["name"] for o in a["term"].f["objects"] if o.f["base"].cls == "SymbolBaseV"
+                   for _ in range(o.f["exponent"])]
+        comps = [Sym(cat(Sym(sign), " ", Sym(number)))] + symbols
+        # the sign of a vanishing prefactor is unobservable: either text is accepted
+        other = [Sym(cat("-", " ", Sym(number)))] + symbols
+        return [("text-is-sign-magnitude-in-the-backend-syntax-times-every-symbol-with-its-multiplicity",
+                 z3.Or(as_term(result) == joined(" * ", comps),
+                       z3.And(pref.t == 0, as_term(result) == joined(" * ", other))))]
 
     def apply(self, vc, a):
+        """callers' view (generate_code): the prefactor text of the term"""
         return a["term"].f["pref_text"]
 
 
